@@ -27,7 +27,9 @@ RULE = ('three kinds of cases. ctrl (60%): twin sides, each with two independent
         '(init_methods entry, prefix+name method, nullary constructor) are present/absent in all '
         '8 combinations, equal __name__ for distinct types, three prefixes; iterated twice. '
         'upd (15%): handlers (listening to on_update or not, renamed callbacks) added/removed '
-        'through add_handler or as components, OnUpdateProcessor added/removed, frames with '
+        'through add_handler or as components, OnUpdateProcessor added/removed (new instances, '
+        'instances that already ran a frame in another world, instances removed earlier and '
+        're-added; removed instances then run a frame in another world), frames with '
         'dyadic dt. non-trivial = ctrl: >= 3 shorthand ops; proto: a listed type with >= 2 '
         'sources; upd: a frame with >= 2 listeners')
 TRUSTED = [
@@ -506,7 +508,7 @@ def gen_upd(rng):
     for _ in range(rng.choice([0, 1, 2, 3])):
         ops.append(['addh', rng.randrange(nh), rng.choice(['handler', 'component'])])
     if rng.random() < 0.7:
-        ops.append(['addoup', rng.random() < 0.3])
+        ops.append(['addoup', rng.random() < 0.3, rng.choice([0, 0, 1, 2])])
     for _ in range(rng.randint(3, 16)):
         r = rng.random()
         if r < 0.33:
@@ -514,9 +516,14 @@ def gen_upd(rng):
         elif r < 0.43:
             ops.append(['remh', rng.randrange(nh)])
         elif r < 0.53:
-            ops.append(['addoup', rng.random() < 0.3])
+            # third field: 0 a new instance, 1 an instance that already ran a
+            # frame in another world, 2 an instance removed from this world
+            # earlier (if any)
+            ops.append(['addoup', rng.random() < 0.3, rng.choice([0, 0, 1, 2])])
         elif r < 0.59:
-            ops.append(['remoup'])
+            # second field: the removed instance then runs a frame in another
+            # world (it must not relay into this one any more)
+            ops.append(['remoup', rng.random() < 0.5])
         else:
             ops.append(['process', rng.choice(DTS)])
     return dict(kind='upd', handlers=handlers, sub=rng.random() < 0.3, ops=ops)
@@ -928,6 +935,7 @@ def run_upd(case):
     as_comp = {}
     out = []
     serial = 0
+    pool = []      # OnUpdateProcessor instances removed from w, in no world
     for o in case['ops']:
         del log[:]
         exn = 0
@@ -944,9 +952,27 @@ def run_upd(case):
                     w.remove_handler(hs[o[1]])
             elif o[0] == 'addoup':
                 serial += 1
-                w.add_processor(oup_cls(), 3 if o[1] else None)
+                how = o[2] if len(o) > 2 else 0
+                if how == 2 and pool:
+                    inst = pool.pop()
+                else:
+                    inst = oup_cls()
+                    if how == 1:
+                        side = desper.World()
+                        side.add_processor(inst)
+                        side.process(1 / 8)
+                        side.remove_processor(type(inst))
+                w.add_processor(inst, 3 if o[1] else None)
             elif o[0] == 'remoup':
+                inst = w.get_processor(desper.OnUpdateProcessor)
                 w.remove_processor(desper.OnUpdateProcessor)
+                if inst is not None:
+                    if len(o) > 1 and o[1]:
+                        side = desper.World()
+                        side.add_processor(inst)
+                        side.process(1 / 8)
+                        side.remove_processor(type(inst))
+                    pool.append(inst)
             elif o[0] == 'process':
                 w.process(o[1] / 8)
         except Exception as ex:
